@@ -90,6 +90,12 @@ def gen(rng, ctx):
     eps = None
     if shared_ep and rng.random() < 0.5:
         eps = rng.sample(shared_ep, 1 if rng.random() < 0.5 else rng.randint(1, len(shared_ep)))
+        if rng.random() < 0.3:
+            # "nodes to compare, must exist in both circuits": a compared node need not be an output
+            t0, t1 = G.cd_types(c0), G.cd_types(cc1)
+            inner = sorted(n for n in t0 if n in t1 and t0[n] in G.ALL_GATES and t1[n] in G.ALL_GATES and n not in eps)
+            if inner:
+                eps = eps + [rng.choice(inner)]
     if rng.random() < 0.3:
         c0 = G.shuffle_nodes(rng, c0)
         if pk == "copy":
@@ -151,6 +157,8 @@ def check_pair(case, ctx, c0d, c1d):
         ctx.count("single_endpoint")
     if case["startpoints"]:
         ctx.count("explicit_startpoints")
+    if case["endpoints"] and not set(case["endpoints"]) <= (n0.outputs & n1.outputs):
+        ctx.count("endpoint_that_is_not_an_output")
     untied = (sp0 | sp1) - tied
     if untied:
         ctx.count("untied_startpoints")
@@ -203,5 +211,5 @@ def check_pair(case, ctx, c0d, c1d):
 
 
 def gates(counters, table, tier):
-    need = ["pair:wide_each", "wide_each:count_1_mod_16", "pair:role_overlap", "pair:copy", "pair:equiv", "pair:mutant", "pair:overlap", "pair:self", "single_endpoint", "untied_startpoints", "explicit_startpoints", "agree", "differ"]
+    need = ["endpoint_that_is_not_an_output", "pair:wide_each", "wide_each:count_1_mod_16", "pair:role_overlap", "pair:copy", "pair:equiv", "pair:mutant", "pair:overlap", "pair:self", "single_endpoint", "untied_startpoints", "explicit_startpoints", "agree", "differ"]
     return [f"{k} seen {counters.get(k, 0)} times" for k in need if counters.get(k, 0) < 10]
